@@ -121,3 +121,20 @@ Fixpoint record_sites (l : list asvc) (sts : list osite) : list asvc :=
   | _, _ => l
   end.
 Definition recorded (sl : slice) (sts : list osite) : slice := mk_slice (sl_nodes sl) (record_sites (sl_services sl) sts).
+
+(* a session on one topology object: mutations of the slice interleaved with validations.  A validation
+   returns validate's outcome on the current slice and leaves the recorded sites in it. *)
+Inductive step := Mutate (f : slice -> slice) | Validate.
+Definition vstep (st : slice) : slice := recorded st (fst (validate_cur st)).
+Fixpoint session (st : slice) (steps : list step) : list (list osite * result) :=
+  match steps with
+  | [] => []
+  | Mutate f :: r => session (f st) r
+  | Validate :: r => validate_cur st :: session (vstep st) r
+  end.
+Fixpoint state_after (st : slice) (steps : list step) : slice :=
+  match steps with
+  | [] => st
+  | Mutate f :: r => state_after (f st) r
+  | Validate :: r => state_after (vstep st) r
+  end.
